@@ -73,18 +73,16 @@ def Err.all : List Err :=
 
 /-- `std::getline(stream, s)`: `none` when nothing at all can be extracted (end of file: `failbit`) -/
 def getline (r : Bytes) : Option (Bytes × Bytes) :=
-  match r with
-  | [] => none
-  | _ => some (r.takeWhile (· != 10), (r.dropWhile (· != 10)).drop 1)
+  if r.isEmpty then none else some (r.takeWhile (· != 10), (r.dropWhile (· != 10)).drop 1)
 
 def skipws (r : Bytes) : Bytes := r.dropWhile isspace
 
 /-- `is >> std::string`: `(token, rest)`; `none` = nothing but white space left (`failbit`).  `rest = []` means
     the token ran to the end of the stream (`eofbit`). -/
 def readToken (r : Bytes) : Option (Bytes × Bytes) :=
-  match skipws r with
-  | [] => none
-  | r' => some (r'.takeWhile (fun c => !isspace c), r'.dropWhile (fun c => !isspace c))
+  let r' := skipws r
+  if r'.isEmpty then none
+  else some (r'.takeWhile (fun c => !isspace c), r'.dropWhile (fun c => !isspace c))
 
 /-- the outcome of a formatted numeric extraction -/
 inductive Ext (α : Type) where
@@ -93,83 +91,82 @@ inductive Ext (α : Type) where
   | ok (v : α)
 deriving Repr
 
-/-- digits of a decimal run: value, count, rest -/
-def scanDigits : Nat → Nat → Bytes → Nat × Nat × Bytes
-  | v, n, [] => (v, n, [])
-  | v, n, c :: r => if isdigit c then scanDigits (v * 10 + (c - 48)) (n + 1) r else (v, n, c :: r)
+/-- a run of decimal digits: value, count, rest -/
+structure Digits where
+  val : Nat
+  cnt : Nat
+  rest : Bytes
+deriving Repr
+
+def scanDigits : Nat → Nat → Bytes → Digits
+  | v, n, [] => ⟨v, n, []⟩
+  | v, n, c :: r => if isdigit c then scanDigits (v * 10 + (c - 48)) (n + 1) r else ⟨v, n, c :: r⟩
+
+/-- an optional `+` / `-` -/
+def stripSign (r : Bytes) : Bool × Bytes :=
+  match r with
+  | 45 :: q => (true, q)
+  | 43 :: q => (false, q)
+  | _ => (false, r)
+
+/-- optional fraction `. digits*` -/
+def scanFraction (r : Bytes) : Digits :=
+  match r with
+  | 46 :: q => scanDigits 0 0 q
+  | _ => ⟨0, 0, r⟩
+
+/-- exponent part after a mantissa: `none` = an `e` without digits (then `strtod` does not consume the accumulated text) -/
+def scanExponent (r : Bytes) : Option Int × Bytes :=
+  match r with
+  | c :: q =>
+    if c = 101 ∨ c = 69 then
+      let sg := stripSign q
+      let d := scanDigits 0 0 sg.2
+      if d.cnt = 0 then (none, d.rest) else (some (if sg.1 then -(d.val : Int) else (d.val : Int)), d.rest)
+    else (some 0, r)
+  | [] => (some 0, [])
 
 /-- libstdc++ `num_get<char>::do_get(double&)` in the C locale: characters are accumulated by `_M_extract_float`
     (`[+-] digits [. digits] [(e|E) [+-] digits]`, an `e` only after a mantissa digit), the accumulated text must be
     consumed entirely by `strtod`; overflow is a failure (value ±DBL_MAX), underflow is not.
     Returns the outcome and the unread rest. -/
 def numGetFloat (r0 : Bytes) : Ext F64 × Bytes :=
-  match skipws r0 with
-  | [] => (.untouched, [])
-  | r =>
-    let (neg, r1) : Bool × Bytes :=
-      match r with
-      | 45 :: q => (true, q)
-      | 43 :: q => (false, q)
-      | _ => (false, r)
-    let (iv, ni, r2) := scanDigits 0 0 r1
-    let (fv, nf, r3, _dot) : Nat × Nat × Bytes × Bool :=
-      match r2 with
-      | 46 :: q => let (v, n, q') := scanDigits 0 0 q; (v, n, q', true)
-      | _ => (0, 0, r2, false)
-    if ni + nf = 0 then (.fail 0, r3) else      -- no mantissa digit: "", "+", ".", "-." …
-    let mant := iv * 10 ^ nf + fv
-    -- exponent part: accepted by `_M_extract_float` after a mantissa digit; `strtod` needs at least one digit
-    let (ex, r4) : Option Int × Bytes :=
-      match r3 with
-      | c :: q =>
-        if c = 101 ∨ c = 69 then
-          let (eneg, q1) : Bool × Bytes :=
-            match q with
-            | 45 :: t => (true, t)
-            | 43 :: t => (false, t)
-            | _ => (false, q)
-          let (ev, ne, q2) := scanDigits 0 0 q1
-          if ne = 0 then (none, q2) else (some (if eneg then -(ev : Int) else (ev : Int)), q2)
-        else (some 0, r3)
-      | [] => (some 0, [])
-    match ex with
-    | none => (.fail 0, r4)                    -- "1e", "1e+": `strtod` stops before the `e`
-    | some e =>
-      match Decimal.ofDecExp mant (e - (nf : Int)) with
-      | .inf _ => (.fail (if neg then F64.neg Decimal.maxFinite else Decimal.maxFinite), r4)
-      | v => (.ok (if neg then F64.neg v else v), r4)
+  let r := skipws r0
+  if r.isEmpty then (.untouched, []) else
+  let sg := stripSign r
+  let ip := scanDigits 0 0 sg.2
+  let fp := scanFraction ip.rest
+  if ip.cnt + fp.cnt = 0 then (.fail 0, fp.rest) else      -- no mantissa digit: "", "+", ".", "-." …
+  let mant := ip.val * 10 ^ fp.cnt + fp.val
+  let ex := scanExponent fp.rest
+  match ex.1 with
+  | none => (.fail 0, ex.2)                    -- "1e", "1e+": `strtod` stops before the `e`
+  | some e =>
+    match Decimal.ofDecExp mant (e - (fp.cnt : Int)) with
+    | .inf _ => (.fail (if sg.1 then F64.neg Decimal.maxFinite else Decimal.maxFinite), ex.2)
+    | v => (.ok (if sg.1 then F64.neg v else v), ex.2)
 
-/-- sign, then decimal digits (leading zeros allowed; basefield is `dec`): `(negative, value, #digits, rest)` -/
-def signedDigits (r : Bytes) : Bool × Nat × Nat × Bytes :=
-  let (neg, r1) : Bool × Bytes :=
-    match r with
-    | 45 :: q => (true, q)
-    | 43 :: q => (false, q)
-    | _ => (false, r)
-  let (v, n, r2) := scanDigits 0 0 r1
-  (neg, v, n, r2)
-
-/-- `is >> int` -/
+/-- `is >> int`: sign, decimal digits (leading zeros allowed; basefield is `dec`), range check -/
 def numGetInt (r0 : Bytes) : Ext Int × Bytes :=
-  match skipws r0 with
-  | [] => (.untouched, [])
-  | r =>
-    let (neg, v, n, r2) := signedDigits r
-    if n = 0 then (.fail 0, r2) else
-    let x : Int := if neg then -(v : Int) else (v : Int)
-    if x < -(2 : Int) ^ 31 then (.fail (-(2 : Int) ^ 31), r2)
-    else if x > (2 : Int) ^ 31 - 1 then (.fail ((2 : Int) ^ 31 - 1), r2)
-    else (.ok x, r2)
+  let r := skipws r0
+  if r.isEmpty then (.untouched, []) else
+  let sg := stripSign r
+  let d := scanDigits 0 0 sg.2
+  if d.cnt = 0 then (.fail 0, d.rest) else
+  let x : Int := if sg.1 then -(d.val : Int) else (d.val : Int)
+  if x < -(2 : Int) ^ 31 then (.fail (-(2 : Int) ^ 31), d.rest)
+  else if x > (2 : Int) ^ 31 - 1 then (.fail ((2 : Int) ^ 31 - 1), d.rest)
+  else (.ok x, d.rest)
 
 /-- `stream >> unsigned` (32 bit): a leading minus sign negates modulo 2³² -/
 def numGetUnsigned (r0 : Bytes) : Ext Nat × Bytes :=
-  match skipws r0 with
-  | [] => (.untouched, [])
-  | r =>
-    let (neg, v, n, r2) := signedDigits r
-    if n = 0 then (.fail 0, r2) else
-    if v > 2 ^ 32 - 1 then (.fail (2 ^ 32 - 1), r2)
-    else (.ok (if neg then (2 ^ 32 - v) % 2 ^ 32 else v), r2)
+  let r := skipws r0
+  if r.isEmpty then (.untouched, []) else
+  let sg := stripSign r
+  let d := scanDigits 0 0 sg.2
+  if d.cnt = 0 then (.fail 0, d.rest) else
+  if d.val > 2 ^ 32 - 1 then (.fail (2 ^ 32 - 1), d.rest)
+  else (.ok (if sg.1 then (2 ^ 32 - d.val) % 2 ^ 32 else d.val), d.rest)
 
 /-! ## the comment lines -/
 
@@ -189,11 +186,9 @@ def HState.init : HState :=
 /-- text after the key of a `Description` / `DateTime` line: `s.substr(s.find_first_not_of(" \t", is.tellg()))`.
     `is.tellg()` is −1 (→ 2³²−1 → nothing found) when the key ran to the end of the line. -/
 def textAfterKey (rest : Bytes) : Option Bytes :=
-  match rest with
-  | [] => none
-  | _ => match rest.dropWhile (fun c => c == 32 || c == 9) with
-    | [] => none
-    | t => some t
+  if rest.isEmpty then none else
+  let t := rest.dropWhile (fun c => c == 32 || c == 9)
+  if t.isEmpty then none else some t
 
 /-- value stored by `is >> _maxerror` (not an error if it cannot be read) -/
 def storeLenient (old : F64) (rest : Bytes) : F64 :=
@@ -231,10 +226,10 @@ def procComment (cubic : Bool) (st : HState) (s : Bytes) : Except Err HState :=
 
 /-- the raster-size line: `is >> _width >> _height` -/
 def sizeLine (s : Bytes) : Option (Int × Int) :=
-  match numGetInt s with
-  | (.ok w, r) =>
-    (match numGetInt r with
-     | (.ok h, _) => some (w, h)
+  match (numGetInt s).1 with
+  | .ok w =>
+    (match (numGetInt (numGetInt s).2).1 with
+     | .ok h => some (w, h)
      | _ => none)
   | _ => none
 
@@ -251,8 +246,9 @@ deriving Repr
 
 /-- `_file >> maxval` and `tellg`, on the bytes after the raster-size line; `consumed` = bytes before `r` -/
 def readMaxval (st : HState) (w h : Int) (consumed : Nat) (r : Bytes) : Except Err Raw :=
-  match numGetUnsigned r with
-  | (.ok mv, r') => .ok { st, w, h, maxval := mv, tell := if r'.isEmpty then none else some (consumed + (r.length - r'.length)) }
+  match (numGetUnsigned r).1 with
+  | .ok mv => .ok { st, w, h, maxval := mv,
+                    tell := if (numGetUnsigned r).2.isEmpty then none else some (consumed + (r.length - (numGetUnsigned r).2.length)) }
   | _ => .error .maxvalRead
 
 /-- the `while (getline(_file, s))` loop; `total` = length of the whole input (to compute stream positions) -/
